@@ -36,8 +36,12 @@ def main():
         import shutil as _sh
         twin = os.path.join(SANDBOX, "warmup-" + os.path.basename(spec["metafile"]))
         _sh.copy(spec["metafile"], twin)
-        impl.edit(twin, {"comment": "warm-up"})
-        os.remove(twin)
+        try:
+            impl.edit(twin, {"comment": "warm-up"})
+        except Exception:
+            pass
+        if os.path.lexists(twin):
+            os.remove(twin)
 
     def on_event(tracer, rec):
         if rec[0] in ("chmod", "utime"):
